@@ -70,17 +70,23 @@ func (e *pegEngine) run(fn *ssa.Function, visits int) []*Summary {
 	ps.NoTables = true
 	within := map[*ssa.Function]bool{fn: true}
 	ps.Inline = func(c *ssa.Function) bool {
-		if e.primitive(c) || c.Pkg != e.prog.GrammarSSA || recursive(e.prog, c) {
+		if e.primitive(c) || c.Pkg != e.prog.GrammarSSA || e.combinatorOf(c) || c == fn {
 			return false
 		}
 		if within[c] {
 			return true
 		}
-		if e.prog.contextOnly(c, func(f *ssa.Function) bool { return within[f] }) {
-			within[c] = true
-			return true
+		// a helper of the engine (a predicate like "at the end of input", the push/parse/pop triple shared by the
+		// repetitions, …): unexported, of package grammar, neither a primitive nor a combinator. The descent itself
+		// (parseExpr) is a primitive and stays a call, so this cannot run away.
+		if o := c.Object(); o != nil && o.Exported() {
+			return false
 		}
-		return false
+		if rv := c.Signature.Recv(); rv != nil && !namedIs(rv.Type(), grammarPath, "parser") {
+			return false
+		}
+		within[c] = true
+		return true
 	}
 	return ps.Run(fn)
 }
@@ -204,6 +210,30 @@ func valuesOf(sm *Summary, s *Sym) ([]*Sym, bool) {
 	}
 	if s.IsNil() {
 		return nil, true
+	}
+	if s.K == sFresh && len(s.Kids) == 1 {
+		if _, isMk := s.V.(*ssa.MakeSlice); isMk && !(s.Kids[0].K == sConst) {
+			// made at its final length and filled slot by slot: vals[i] = v for i = 0, 1, …
+			byIdx := map[int64]*Sym{}
+			for _, ev := range sm.Events() {
+				if ev.Store && ev.Args[0].K == sIndexAddr && ev.Args[0].A != nil && ev.Args[0].A.Key() == s.Key() {
+					i := linearKeyValue(ev.Args[0].B.Key())
+					if i < 0 {
+						return nil, false
+					}
+					byIdx[i] = ev.Args[1]
+				}
+			}
+			var out []*Sym
+			for i := int64(0); i < int64(len(byIdx)); i++ {
+				v, ok := byIdx[i]
+				if !ok {
+					return nil, false
+				}
+				out = append(out, v)
+			}
+			return out, true
+		}
 	}
 	base, parts := appendChain(sm.St, s)
 	if base == nil {
@@ -899,6 +929,10 @@ func (e *pegEngine) checkLiteral(r *Run, rule string, report func(string, *ssa.F
 	}
 	// one comparison per rune of the literal, against the current rune, lower-cased exactly when the literal ignores case
 	cmpOK, folds := e.literalComparison(fn)
+	if !cmpOK || !folds {
+		// the same on the paths (the folding may be chosen once, as a function value, before the loop)
+		cmpOK, folds = e.literalComparisonOnPaths(fn)
+	}
 	if !cmpOK {
 		probs = append(probs, "the literal is not compared rune by rune with the current input rune (`cur != want` over the runes of val)")
 	}
@@ -1468,6 +1502,14 @@ func (e *pegEngine) matchNotCollected(fn *ssa.Function) string {
 							return true
 						}
 					}
+					// or the value is put into its slot of a list made at full length: vals[i] = val
+					if st, ok := i2.(*ssa.Store); ok {
+						if ia, isIA := st.Addr.(*ssa.IndexAddr); isIA {
+							if _, isMk := ia.X.(*ssa.MakeSlice); isMk {
+								return true
+							}
+						}
+					}
 				}
 				return false
 			}
@@ -1497,4 +1539,56 @@ func (e *pegEngine) matchNotCollected(fn *ssa.Function) string {
 		}
 	}
 	return ""
+}
+
+// literalComparisonOnPaths: every comparison with a rune of the literal's text compares the current input rune — as it is
+// on the paths where ignoreCase is false, through unicode.ToLower on the paths where it is true.
+func (e *pegEngine) literalComparisonOnPaths(fn *ssa.Function) (cmpOK, folds bool) {
+	ps := NewPathSim(e.prog)
+	ps.maxVisits = 2
+	ps.NoTables = true
+	ps.Inline = func(c *ssa.Function) bool {
+		return c.Pkg == e.prog.GrammarSSA && !e.primitive(c) && !e.combinatorOf(c) && c != fn
+	}
+	p := paramSym(fn.Params[0])
+	rn := loadField(p, "pt", "rn").Key()
+	ic := loadField(paramSym(fn.Params[1]), "ignoreCase")
+	plainSeen, lowerSeen, bad := false, false, false
+	ps.OnInstr = func(f *ssa.Function, st *pstate, ins ssa.Instruction) {
+		bo, ok := ins.(*ssa.BinOp)
+		if !ok || (bo.Op != token.NEQ && bo.Op != token.EQL) {
+			return
+		}
+		for _, pair := range [][2]ssa.Value{{bo.X, bo.Y}, {bo.Y, bo.X}} {
+			ex, ok := pair[1].(*ssa.Extract)
+			if !ok || ex.Index != 2 {
+				continue
+			}
+			nx, ok := ex.Tuple.(*ssa.Next)
+			if !ok || !nx.IsString {
+				continue
+			}
+			cur := ps.sym(st, pair[0])
+			icV, icKnown := evalBool(st, ic)
+			isPlain := cur.Key() == rn
+			isLower := false
+			if cf, _ := calleeOfSym(cur); cf != nil && cf.Pkg != nil && cf.Pkg.Pkg.Path() == "unicode" && cf.Name() == "ToLower" {
+				if as := symArgs(st, cur); len(as) == 1 && as[0].Key() == rn {
+					isLower = true
+				}
+			}
+			switch {
+			case icKnown && icV && isLower:
+				lowerSeen = true
+			case icKnown && !icV && isPlain:
+				plainSeen = true
+			default:
+				bad = true
+			}
+		}
+	}
+	ps.Run(fn)
+	cmpOK = plainSeen || lowerSeen || bad
+	folds = plainSeen && lowerSeen && !bad
+	return
 }
